@@ -168,6 +168,22 @@ Theorem C01_replayed_initiation_is_dropped : forall st p ep,
 Proof. exact replayed_initiation_is_dropped. Qed.
 Print Assumptions C01_replayed_initiation_is_dropped.
 
+(* ------------------------------------------------------------- UAPI endpoint= *)
+
+(* the UAPI peer section ends with SendStagedPackets toward the new endpoint *)
+Theorem C01_set_endpoint_then_flush : forall tbl mtu i p ep,
+  peer_step tbl mtu true i p (SetEp i ep) =
+  send_staged mtu i {| p_ep := Some ep; p_sess := p_sess p; p_hs_recent := p_hs_recent p;
+                       p_init_out := p_init_out p; p_staged := p_staged p |}.
+Proof. exact set_endpoint_then_flush. Qed.
+Print Assumptions C01_set_endpoint_then_flush.
+
+Theorem C01_set_endpoint_keeps_table : forall st p ep,
+  s_tbl (fst (step st (SetEp p ep))) = s_tbl st /\
+  s_mtu (fst (step st (SetEp p ep))) = s_mtu st.
+Proof. exact set_endpoint_keeps_table. Qed.
+Print Assumptions C01_set_endpoint_keeps_table.
+
 (* ------------------------------------------------------------------ non-vacuity *)
 
 Example C01_pad_values :
@@ -237,3 +253,10 @@ Example C01_nonvacuous_refused_initiation :
                               TunBatch [ex_pkt]; AnswerHs 1 9 4]
   = [[]; []; []; [OInit 1 3]; [OData 1 4 9 0 ex_pkt 1420; OData 1 4 9 1 ex_pkt 1420]].
 Proof. split; vm_compute; reflexivity. Qed.
+
+(* A packet staged while the peer has no endpoint: setting the endpoint sends
+   the initiation there, and the answer flushes the packet exactly once. *)
+Example C01_nonvacuous_set_endpoint :
+  outs step (ex_st None) [TunBatch [ex_pkt]; ShiftHs 1; SetEp 1 5; AnswerHs 1 9 5]
+  = [[]; []; [OInit 1 5]; [OData 1 5 9 0 ex_pkt 1420]].
+Proof. vm_compute. reflexivity. Qed.
